@@ -449,6 +449,32 @@ fn main() {
     if let Some(path) = args.value("--replay") {
         std::process::exit(do_replay(path));
     }
+    if let Some(lo) = args.num("--only-block") {
+        // debugging aid: execute one block of 256 runs exactly as the batch does
+        let plans: Arc<Vec<Plan>> = Arc::new((lo..lo + 256).map(|i| plan(rng::mix(base_seed, rng::domain(PROP), i))).collect());
+        let outs = exec::execute_block(&plans);
+        for (k, out) in outs.iter().enumerate() {
+            let v = judge(&plans[k].scenario, out);
+            if v != Verdict::Held {
+                println!("run {}: {:?} (panic {:?})", lo + k as u64, v, out.panic.as_ref().map(|p| (&p.file, p.line)));
+            }
+        }
+        return;
+    }
+    if let Some(idx) = args.num("--only") {
+        // debugging aid: execute one run index of the batch and print what happened
+        let run_seed = rng::mix(base_seed, rng::domain(PROP), idx);
+        let p = plan(run_seed);
+        let out = execute(&p.scenario, p.mode.clone(), p.sched_seed);
+        println!("scenario: {}", p.scenario.to_json());
+        println!("mode: {:?} steps={} choices={:?}", p.mode, out.trace.step, &out.trace.choices[..out.trace.choices.len().min(200)]);
+        for r in out.trace.history.iter().take(40) {
+            println!("  [{:>4}..{:>4}] task {} {:?} {:?} -> {:?}", r.invoke, r.ret, r.task, r.phase, r.call, r.res);
+        }
+        println!("panic: {:?}", out.panic);
+        println!("verdict: {:?}", judge(&p.scenario, &out));
+        return;
+    }
     let tier = simcore::tier_from(&args);
     let workers = args.num("--workers").map(|w| w as usize).unwrap_or_else(simcore::par::workers_from_env);
     let runs = args.num("--runs").unwrap_or(match tier {
@@ -507,8 +533,13 @@ fn main() {
     if !acc.det_mismatch.is_empty() {
         harness_error(&format!("determinism self-test failed for runs {:?}", &acc.det_mismatch[..acc.det_mismatch.len().min(10)]));
     }
-    if !acc.harness.is_empty() {
+    if !acc.harness.is_empty() && acc.violations.is_empty() {
         harness_error(&acc.harness.join(" | "));
+    }
+    if !acc.harness.is_empty() {
+        // real violations are reported below; harness trouble in other runs of the same batch is
+        // most likely fallout of the library panics and is only noted
+        println!("note: {} run(s) ended in a harness-level error (first: {})", acc.harness.len(), acc.harness[0]);
     }
 
     // violations: known findings vs new ones
@@ -571,7 +602,7 @@ fn main() {
         if acc.finisher_overlap_runs == 0 {
             probe_fail.push("no run overlapped an index-completing call with another call");
         }
-        if acc.mode_counts.len() < 3 {
+        if acc.mode_counts.len() < 4 {
             probe_fail.push("not all scheduling modes were used");
         }
     }
